@@ -288,6 +288,15 @@ def gen_world(rng, tag, n_base=None, quantized_p=0.25, noref_p=0.15):
                 f = rng.choice(FACTORS)
                 kind = 'dec' if _is_dec(F(f)) and rng.random() < 0.6 else 'frac'
                 emit({'d': 'unit', 'cls': name, 'sym': sym, 'def': ['qty', [kind, f], base]})
+        if ref is not None and rng.random() < 0.5:
+            # units given by a TERM number x unit, the number a plain int or a fraction
+            # (two int scales: their ratio must not become a float, finding F21)
+            for j in range(2):
+                base = rng.choice(w.classes[name]['units'])
+                num = rng.choice([['int', '1000/1'], ['int', '3/1'], ['int', '12/1'],
+                                  ['frac', '1/3'], ['int', '7/1']])
+                emit({'d': 'unit', 'cls': name, 'sym': f"{tag}{i}t{j}",
+                      'def': ['term', [[['n', num], 1], [['u', base], 1]]]})
     nd = rng.randint(1, 4)
     for i in range(nd):
         for _ in range(6):
@@ -488,8 +497,10 @@ def gen_history(rng, tag, n_steps=None, fault_p=0.3):
             r = rng.random()
             if reuse and r < 0.7:
                 pass
-            elif r < 0.45:
+            elif r < 0.35:
                 items.insert(0, [['n', ['frac', rng.choice(FACTORS)]], 1])
+            elif r < 0.45:
+                items.insert(0, [['n', ['int', rng.choice(['1000/1', '3/1', '12/1'])]], 1])
             elif r < 0.6:
                 # plain int with a negative exponent (exact power needed)
                 items.insert(0, [['n', ['int', rng.choice(['10/1', '2/1', '3/1', '60/1'])]],
